@@ -119,8 +119,8 @@ CLAIMS = {
   design_ref="§6 C02"),
  "C03": dict(
   category="proof",
-  text="Partial. (1) Panic-freedom: for 121 functions under contract (stream readers, flat-file, fixed-length, csv, EDI, node tree, navigator, date-time, javascript, transform.Read) every generated safety obligation is discharged for all inputs satisfying the function's precondition: no nil dereference, no index or slice bound violation, no failing type assertion, no reachable explicit panic, no division by zero. (2) Termination of loops: 20 loops carry a proved variant (obligations loopK.decreases: rune slicing, buffer compaction, the xpath backward scan incl. its nested quote loop, javascript argument loop, envelope row loops, and - under the stated assumption that every input is finite, ghost inputLeft - the token/line consuming loops of the JSON, XML, fixed-length and EDI readers); 9 range loops terminate by construction. (3) The error-class postconditions whose violation makes the documented read loop spin (a fatal condition reported as a continuable error). F3 and F11 (panics escaping Read) were found by these obligations and are fixed.",
-  note="NOT decided: termination of 8 loops listed in evidence (sibling-chain walks, the hierarchy readers' main loops, csv jumpTo - the design-round hang F4a lives there), recursion (no recursion variants: seeded change C03_a2, unbounded template recursion, is missed), functions not under contract, notably the transform package's reflection calls (F12, F13). 16 contracted functions with still-undischarged safety obligations are excluded and named in DESIGN.md 0.2. Preconditions that come from schema validation are assumed. 'Finite input' is an assumption on the library readers (a successful read strictly decreases inputLeft >= 0).",
+  text="Partial. (1) Panic-freedom: for 121 functions under contract (stream readers, flat-file, fixed-length, csv, EDI, node tree, navigator, date-time, javascript, transform.Read) every generated safety obligation is discharged for all inputs satisfying the function's precondition: no nil dereference, no index or slice bound violation, no failing type assertion, no reachable explicit panic, no division by zero. (2) Termination of loops: 21 loops carry a proved variant (obligations loopK.decreases: rune slicing, buffer compaction, the xpath backward scan incl. its nested quote loop, javascript argument loop, envelope row loops, the old csv reader's row-skipping loop under a delimiter the decoder accepts - which validateFileDecl is proved to establish, F4a fixed - and - under the stated assumption that every input is finite, ghost inputLeft - the token/line consuming loops of the JSON, XML, fixed-length and EDI readers); 9 range loops terminate by construction. (3) The error-class postconditions whose violation makes the documented read loop spin (a fatal condition reported as a continuable error). F3, F11 (panics escaping Read) and F4a (hang on a delimiter the csv decoder refuses) were found by these obligations and are fixed.",
+  note="NOT decided: termination of 7 loops listed in evidence (sibling-chain walks, the hierarchy readers' main loops), recursion (no recursion variants: seeded change C03_a2, unbounded template recursion, is missed), functions not under contract, notably the transform package's reflection calls (F12, F13). 16 contracted functions with still-undischarged safety obligations are excluded and named in DESIGN.md 0.2. Preconditions that come from schema validation are assumed. 'Finite input' is an assumption on the library readers (a successful read strictly decreases inputLeft >= 0).",
   technique="contract-based deductive verification: automatically generated safety obligations per SSA instruction, loop variants, SMT",
   design_ref="§6 C03"),
 }
